@@ -8,7 +8,7 @@ def bounds(tier): return BOUNDS[tier]
 DESCR = {}
 EXPLANATION = PG.EXPL
 ASSUMPTIONS = PG.ASSUME
-BOUNDS = {'quick': 'the thirteen stream templates of C03 (holes of 1 free byte) and fully free 4-byte streams: the result of one blocking read is compared with every two-way split (blocking: every position, async: every third position in quick), one byte per read '
+BOUNDS = {'quick': 'the fifteen stream templates of C03 (holes of 1 free byte) and fully free 4-byte streams: the result of one blocking read is compared with every two-way split (blocking: every position, async: every third position in quick), one byte per read '
                    '(both), a three-way split and the async connection in one read, 8-byte receive buffer; line-grammar prefix stability for all inputs of 3..4 free bytes and greeting prefix stability for 9-byte inputs',
           'thorough': 'holes of 2 bytes, free streams of 4..6 bytes, additionally with the literal 4096-byte buffer; prefix stability up to 6 free bytes / 11-byte greetings'}
 REQUIRED_CLASSES = ['stream with 1 responses', 'stream with 2 responses', 'line ok', 'line Error']
